@@ -291,6 +291,44 @@ def handle_lagr(c):
     return '__none__', fails
 
 
+def handle_kkt(c):
+    """design variables exactly on their bounds (scaled), active constraint elements: the active sets
+    found by _get_active_cons_and_dvs and the multipliers reported in model units must be the exact ones
+    under every scaling"""
+    fails = []
+    exp = c['expect']
+    want_dv = np.array([float(fr(v)) for v in exp['dv_mult']])
+    want_con = np.array([float(fr(v)) for v in exp['con_mult']])
+    for t, sc in enumerate(c['scalings']):
+        cc = dict(c)
+        cc.update(sc)
+        shown = {k: {kk: vv for kk, vv in sc[k].items() if kk in ('scaler', 'adder', 'ref', 'ref0')} for k in ('dv', 'con', 'obj')}
+        p, A, b, cvec, x0 = build(cc)
+        try:
+            acons, advs = p.driver._get_active_cons_and_dvs(feas_atol=1e-6, feas_rtol=1e-6)
+            got_dv = sorted(int(i) for i in advs['x']['indices']) if 'x' in advs else []
+            got_con = sorted(int(i) for i in acons['y']['indices']) if 'y' in acons else []
+            if got_dv != sorted(exp['dv_active']):
+                fails.append(('active-set', 'active design-variable elements %s, exactly on a bound are %s (scaling %d: %s)' % (
+                    got_dv, sorted(exp['dv_active']), t, shown)))
+            if got_con != sorted(exp['con_active']):
+                fails.append(('active-set', 'active constraint elements %s, exactly active are %s (scaling %d: %s)' % (
+                    got_con, sorted(exp['con_active']), t, shown)))
+            for sparse in (False,):
+                adv, acon = p.driver.compute_lagrange_multipliers(driver_scaling=False, use_sparse_solve=sparse)
+                md = adv['x']['multipliers'] if 'x' in adv else np.zeros(len(want_dv))
+                mc = acon['y']['multipliers'] if 'y' in acon else np.zeros(len(want_con))
+                if not np.allclose(md, want_dv, rtol=1e-8, atol=1e-9):
+                    fails.append(('multipliers-depend-on-scaling', 'bound multipliers of x in model units %s, exact KKT multipliers %s (scaling %d: %s)' % (
+                        md, want_dv, t, shown)))
+                if not np.allclose(mc, want_con, rtol=1e-8, atol=1e-9):
+                    fails.append(('multipliers-depend-on-scaling', 'multipliers of y in model units %s, exact KKT multipliers %s (scaling %d: %s)' % (
+                        mc, want_con, t, shown)))
+        except Exception as e:   # noqa
+            fails.append(('multipliers-raise', 'raises %s: %s (scaling %d: %s)' % (type(e).__name__, str(e)[:120], t, shown)))
+    return '__none__', fails
+
+
 def handle(c):
     kind = c['kind']
     fails = []
@@ -351,6 +389,8 @@ def handle(c):
         res, fails = handle_prob(c)
     elif kind == 'lagr':
         res, fails = handle_lagr(c)
+    elif kind == 'kkt':
+        res, fails = handle_kkt(c)
     else:
         raise ValueError(kind)
     if fails:
